@@ -59,3 +59,78 @@ pub fn estimate_log_prob_resp(
 pub fn estimate_weighted_log_prob(gmm: &GaussianMixtureModel<f64>, observations: &Array2<f64>) -> Array2<f64> {
     gmm.estimate_weighted_log_prob(observations)
 }
+
+// ---- generic in the scalar (f32 / f64) and in the storage of the observations: the steps of
+// ---- `fit` one by one, so the harness can rebuild the chain of EM states `fit` walks along
+
+/// the initial model `fit` starts from (`GaussianMixtureModel::new` with the parameters' own rng)
+pub fn new_model<F: Float, R: Rng + Clone, D: Data<Elem = F>, T>(
+    hyperparameters: &GmmValidParams<F, R>,
+    dataset: &DatasetBase<ArrayBase<D, Ix2>, T>,
+) -> Result<GaussianMixtureModel<F>, GmmError> {
+    GaussianMixtureModel::<F>::new(hyperparameters, dataset, hyperparameters.rng())
+}
+
+/// `(mean log_prob_norm, log_resp)` — the method `fit` calls
+pub fn e_step<F: Float, D: Data<Elem = F>>(
+    gmm: &GaussianMixtureModel<F>,
+    observations: &ArrayBase<D, Ix2>,
+) -> Result<(F, Array2<F>), GmmError> {
+    gmm.e_step(observations)
+}
+
+/// the method `fit` calls (updates weights, means, covariances, precisions_chol in place)
+pub fn m_step<F: Float, D: Data<Elem = F>>(
+    gmm: &mut GaussianMixtureModel<F>,
+    reg_covar: F,
+    observations: &ArrayBase<D, Ix2>,
+    log_resp: &Array2<F>,
+) -> Result<(), GmmError> {
+    gmm.m_step(reg_covar, observations, log_resp)
+}
+
+pub fn precisions_chol_g<F: Float>(gmm: &GaussianMixtureModel<F>) -> &Array3<F> {
+    &gmm.precisions_chol
+}
+
+pub fn from_parts_g<F: Float>(
+    weights: Array1<F>,
+    means: Array2<F>,
+    covariances: Array3<F>,
+    precisions: Array3<F>,
+    precisions_chol: Array3<F>,
+) -> GaussianMixtureModel<F> {
+    GaussianMixtureModel {
+        covar_type: GmmCovarType::Full,
+        weights,
+        means,
+        covariances,
+        precisions,
+        precisions_chol,
+    }
+}
+
+#[allow(clippy::type_complexity)]
+pub fn estimate_gaussian_parameters_g<F: Float, D: Data<Elem = F>>(
+    observations: &ArrayBase<D, Ix2>,
+    resp: &Array2<F>,
+    reg_covar: F,
+) -> Result<(Array1<F>, Array2<F>, Array3<F>), GmmError> {
+    GaussianMixtureModel::<F>::estimate_gaussian_parameters(
+        observations,
+        resp,
+        &GmmCovarType::Full,
+        reg_covar,
+    )
+}
+
+pub fn compute_precisions_full_g<F: Float>(precisions_chol: &Array3<F>) -> Array3<F> {
+    GaussianMixtureModel::<F>::compute_precisions_full(precisions_chol)
+}
+
+pub fn estimate_log_prob_resp_g<F: Float, D: Data<Elem = F>>(
+    gmm: &GaussianMixtureModel<F>,
+    observations: &ArrayBase<D, Ix2>,
+) -> (Array1<F>, Array2<F>) {
+    gmm.estimate_log_prob_resp(observations)
+}
